@@ -210,6 +210,79 @@ def add_multitrack_audio_stream(env, res=None, directory: str = 'mta') -> int:
     return spk
 
 
+def drop_mehd(buf: bytes) -> bytes:
+    """the same file without the (optional) mehd box in moov/mvex"""
+    root = ib.parse_file(buf)
+    moov = root.find(b'moov')
+    mvex = moov.find(b'mvex')
+    mehd = mvex.find(b'mehd')
+    assert mehd is not None
+    out = bytearray(buf)
+    _patch_sizes(out, [moov, mvex], -mehd.size)
+    del out[mehd.start:mehd.end]
+    return bytes(out)
+
+
+def add_protection_variants_stream(env, res=None, directory: str = 'sy5') -> dict:
+    """Encrypted files whose protection-related structure differs from the fixtures:
+      sy5_v1_enc  no mehd box in mvex (the box is optional; the fixtures all have one)
+      sy5_a1_enc  a version 1 pssh box in the first moof lists a second key id besides the default
+                  one (key rotation style): the track has two KIDs
+    -> {name: [kid, ...]} as the oracle reads them from the files"""
+    from dlv.appenv import FIXTURES
+    from dlv.oracles import boxwriter as bw
+    fx = FIXTURES / 'bbb'
+    a_enc = (fx / 'bbb_a1_enc.mp4').read_bytes()
+    kid = ib.index_file(a_enc).tenc['kid']
+    kid2 = bytes.fromhex('a2c786d0f9ef4cb3b333cd323a4284a5')
+    pssh = bw.full(b'pssh', 1, 0, bytes.fromhex('1077efecc0b24d02ace33c1e52e2fb4b') +
+                   struct.pack('>I', 2) + kid + kid2 + struct.pack('>I', 0))
+    files = {'sy5_v1': (fx / 'bbb_v7.mp4').read_bytes(),
+             'sy5_v1_enc': drop_mehd((fx / 'bbb_v7_enc.mp4').read_bytes()),
+             'sy5_a1_enc': restructure(a_enc, moof_pssh=pssh)}
+    for name, data in files.items():
+        assert len(ib.index_file(data).segments) == 10, name
+    env.add_stream(directory, title='Synthetic: no mehd, two key ids', files=files)
+    if res is not None:
+        res.count('synthetic.streams')
+    return {'sy5_v1_enc': [ib.index_file(files['sy5_v1_enc']).tenc['kid']], 'sy5_a1_enc': [kid, kid2]}
+
+
+def legal_variants() -> dict[str, bytes]:
+    """Well-formed files whose structure differs from every fixture (for upload -> index -> serve)."""
+    from dlv.appenv import FIXTURES
+    from dlv.oracles import boxwriter as bw
+    fx = FIXTURES / 'bbb'
+    v, a, a_enc, v_enc = ((fx / n).read_bytes() for n in ('bbb_v7.mp4', 'bbb_a1.mp4', 'bbb_a1_enc.mp4', 'bbb_v7_enc.mp4'))
+    tenc = ib.index_file(a_enc).tenc
+    kid2 = bytes.fromhex('a2c786d0f9ef4cb3b333cd323a4284a5')
+    pssh = bw.full(b'pssh', 1, 0, bytes.fromhex('1077efecc0b24d02ace33c1e52e2fb4b') +
+                   struct.pack('>I', 2) + tenc['kid'] + kid2 + struct.pack('>I', 0))
+    return {
+        'pssh_in_moof': restructure(a_enc, moof_pssh=pssh),
+        'no_mehd': drop_mehd(v_enc),
+        'plain_base': restructure(a, plain_base=True),
+        'senc_override': restructure(a_enc, senc_override=b'\0\0\1' + bytes([tenc['iv_size']]) + tenc['kid']),
+        'no_tfdt_from_5': restructure(v, first_sequence=5, drop_tfdt=True),
+        'explicit_base': restructure(a, explicit_base=True),
+        'track_5': retrack(v, 5),
+    }
+
+
+def add_retracked_video_stream(env, res=None, directory: str = 'vt5') -> int:
+    """bbb with its video on track 5 (track ids only have to be unique within a stream): the video
+    AdaptationSet of a manifest is numbered 1 whatever the track id is."""
+    from dlv.appenv import FIXTURES
+    fx = FIXTURES / 'bbb'
+    files = {'vt5_v1': retrack((fx / 'bbb_v7.mp4').read_bytes(), 5), 'vt5_a1': (fx / 'bbb_a1.mp4').read_bytes(),
+             'vt5_t1': (fx / 'bbb_t1.mp4').read_bytes()}
+    assert ib.index_file(files['vt5_v1']).track_id == 5
+    spk = env.add_stream(directory, title='Video on track 5', files=files)
+    if res is not None:
+        res.count('synthetic.streams')
+    return spk
+
+
 def _patch_sizes(m: bytearray, chain: list, delta: int) -> None:
     for b in chain:
         struct.pack_into('>I', m, b.start, struct.unpack_from('>I', m, b.start)[0] + delta)
@@ -217,7 +290,7 @@ def _patch_sizes(m: bytearray, chain: list, delta: int) -> None:
 
 def restructure(buf: bytes, first_sequence: int | None = None, drop_tfdt: bool = False,
                 explicit_base: bool = False, plain_base: bool = False,
-                senc_override: bytes | None = None) -> bytes:
+                senc_override: bytes | None = None, moof_pssh: bytes | None = None) -> bytes:
     """Re-lays a fragmented file out fragment by fragment (same payloads, same durations):
       first_sequence  mfhd sequence numbers count from this value instead of 1
       drop_tfdt       the tfdt box of every fragment is removed (decode times must be derived)
@@ -228,6 +301,7 @@ def restructure(buf: bytes, first_sequence: int | None = None, drop_tfdt: bool =
       senc_override   20 bytes AlgorithmID(3) IV_size(1) KID(16): every senc box gets flags|=1 and these
                       override fields in front of its sample count (first edition of 23001-7; the parser
                       under test reads and writes them)
+      moof_pssh       this (pssh) box becomes the last child of the first moof box
     sidx referenced sizes, trun data offsets and saio offsets are kept consistent with the new layout."""
     root = ib.parse_file(buf)
     out = bytearray()
@@ -286,6 +360,12 @@ def restructure(buf: bytes, first_sequence: int | None = None, drop_tfdt: bool =
                 _patch_sizes(m, [local, traf, se], 20)
                 m[p:p] = senc_override
                 delta += 20
+        if moof_pssh is not None:
+            local = ib.parse_file(bytes(m)).children[0]
+            _patch_sizes(m, [local], len(moof_pssh))
+            m += moof_pssh
+            delta += len(moof_pssh)
+            moof_pssh = None
         if delta or senc_override is not None:
             local = ib.parse_file(bytes(m)).children[0]
             so, se = local.find(b'traf', b'saio'), local.find(b'traf', b'senc')
